@@ -1413,9 +1413,17 @@ impl ReaderState {
         let mut buf = Vec::new();
         let content = match reader.read_to_end_into(end.name(), &mut buf) {
             Ok(span) => {
-                let r = self.content[(span.start as usize)..(span.end as usize)]
-                    .trim()
-                    .to_string();
+                let raw = self.content[(span.start as usize)..(span.end as usize)].trim();
+                // Pure character data (no markup, no CDATA section): resolve the entity references,
+                // as the XML parser does for attribute values.
+                let r = if raw.contains('<') {
+                    raw.to_string()
+                } else {
+                    match quick_xml::escape::unescape(raw) {
+                        Ok(unescaped) => unescaped.into_owned(),
+                        Err(_) => raw.to_string(),
+                    }
+                };
                 #[cfg(feature = "Debug_Reader")]
                 debug!("{} content {} - {}: {}", tag, span.start, span.end, r);
                 r
